@@ -2,9 +2,9 @@ package rules
 
 import (
 	"fmt"
-	"strings"
 	"go/constant"
 	"go/token"
+	"strings"
 
 	"golang.org/x/tools/go/ssa"
 
